@@ -1,7 +1,9 @@
 """C17 — every simulation terminates and fails loudly."""
 import copy
+import datetime
 import glob
 import os
+import random
 import shutil
 import tempfile
 
@@ -11,7 +13,9 @@ import runoracle
 PID = "C17"
 CHUNK = 4
 RULE = ("scenarios from the grammar in harness/scen.py (15 % with infeasible trips), every strategy, one third of the "
-        "runs with a fault injected into the strategy step at a random timestep; every run ends with report generation "
+        "runs with a fault injected into the strategy step at a random timestep, one sixth with an error in the scenario's "
+        "data that is met while a later step's events are processed (arrival without soc_delta, fixed load named like a "
+        "charging station); every run ends with report generation "
         "(`testing` aggregates; one run in four also writes the results JSON, the time series CSV per connector and the "
         "SoC CSV, whose row counts must equal the number of reported steps); watchdog per run; "
         "non-trivial = the run reported at least one step; distinct = distinct (seed, index, strategy)")
@@ -26,8 +30,37 @@ def gen_cases(tier, seed):
     return runcheck.gen_cases_for(PID, tier, seed, per_strategy_quick=250, per_strategy_thorough=2500, fault=True)
 
 
+def data_fault(full, rng):
+    """An error that comes from the scenario's data and is raised while a step's events are processed (whoever
+    replays the events - the flex report does - meets it again): an arrival without soc_delta, or a fixed load that
+    carries a charging station's name, first due at a step after the first."""
+    s = full["scenario"]
+    start = datetime.datetime.fromisoformat(s["scenario"]["start_time"])
+    iv = datetime.timedelta(minutes=s["scenario"]["interval"])
+    n = s["scenario"]["n_intervals"]
+    ev = s["events"]
+    arrivals = [e for e in ev["vehicle_events"] if e["event_type"] == "arrival" and "soc_delta" in e["update"]
+                and start + iv <= datetime.datetime.fromisoformat(e["start_time"]) <= start + (n - 1) * iv]
+    kind = rng.choice(["arrival_without_soc_delta", "fixed_load_named_like_station"])
+    if kind == "arrival_without_soc_delta" and arrivals:
+        del rng.choice(arrivals)["update"]["soc_delta"]
+        return kind
+    stations = s["components"]["charging_stations"]
+    if not stations or n < 3:
+        return None
+    cs_id = rng.choice(sorted(stations))
+    k = rng.randint(1, n - 1)
+    ev["fixed_load"][cs_id] = {"start_time": (start + k * iv).isoformat(), "step_duration_s": s["scenario"]["interval"] * 60,
+                               "grid_connector_id": stations[cs_id]["parent"], "values": [1.0, 2.0]}
+    return "fixed_load_named_like_station"
+
+
 def eval_case(case):
     full = runcheck.build_case(case)
+    if "scenario" not in case and case.get("family") != "builder" and case.get("i", 0) % 6 == 4:
+        full = copy.deepcopy(full)
+        full["data_fault"] = data_fault(full, random.Random("C17df:%s:%s:%s" % (case["seed"], case["i"], case["strategy"])))
+        full["report"] = "files" if case["i"] % 12 == 4 else "testing"
     if "report" not in full:
         full["report"] = "files" if case.get("i", 0) % 4 == 1 else "testing"
     run = copy.deepcopy(full)
@@ -62,6 +95,12 @@ def eval_case(case):
     finally:
         if tmp:
             shutil.rmtree(tmp, ignore_errors=True)
+    if full.get("data_fault") and res["sample"].get("reported_steps") is not None and not res["sample"].get("aborted") \
+            and not res["violations"]:
+        res["violations"].append(("loud", "C17:data_error_ignored:%s" % full["data_fault"],
+                                  "%s: the run reports %s steps and is not labelled aborted"
+                                  % (full["strategy"], res["sample"]["reported_steps"])))
     res["replay_case"] = full
-    res["stats"] = res.get("stats", []) + ["report:" + full["report"]]
+    res["stats"] = res.get("stats", []) + ["report:" + full["report"]] + (
+        ["data_fault:%s" % full["data_fault"]] if full.get("data_fault") else [])
     return res
